@@ -25,6 +25,25 @@ def model(pat, doc=""):
     return deco
 
 
+def float_min(a, b):
+    """f32::min / f64::min: a NaN operand is ignored (the other one is returned)"""
+    r = ite(Num(a.v).le(Num(b.v)), Num(a.v), Num(b.v))
+    if a.nan is None and b.nan is None:
+        return r
+    an, bn = a.is_nan(), b.is_nan()
+    val = z3.If(z3.BoolVal(an) if isinstance(an, bool) else an, b.z(), z3.If(z3.BoolVal(bn) if isinstance(bn, bool) else bn, a.z(), r.z()))
+    return Num(val, b_and(an, bn))
+
+
+def float_max(a, b):
+    r = ite(Num(a.v).ge(Num(b.v)), Num(a.v), Num(b.v))
+    if a.nan is None and b.nan is None:
+        return r
+    an, bn = a.is_nan(), b.is_nan()
+    val = z3.If(z3.BoolVal(an) if isinstance(an, bool) else an, b.z(), z3.If(z3.BoolVal(bn) if isinstance(bn, bool) else bn, a.z(), r.z()))
+    return Num(val, b_and(an, bn))
+
+
 def deref(v):
     while isinstance(v, Ref):
         v = v.get()
@@ -422,6 +441,10 @@ def m_numcast_f(eng, callee, args):
        "NumCast::from(int) = Some(that integer as a real)")
 def m_numcast_i(eng, callee, args):
     v = args[0]
+    if not isinstance(v, int):
+        c = eng.concretize_int(v)
+        if c is not None:
+            v = c
     return Some(Num(v) if isinstance(v, int) else Num(z3.ToReal(v)))
 
 
@@ -463,13 +486,18 @@ def m_abs(eng, callee, args):
 @model(r"^<(T|F|f32|f64) as (num_traits::)?Float>::min$", "Float::min (R-mode)")
 def m_min(eng, callee, args):
     a, b = Num.of(args[0]), Num.of(args[1])
-    return ite(a.le(b), a, b)
+    return float_min(a, b)
 
 
 @model(r"^<(T|F|f32|f64) as (num_traits::)?Float>::max$", "Float::max (R-mode)")
 def m_max(eng, callee, args):
     a, b = Num.of(args[0]), Num.of(args[1])
-    return ite(a.ge(b), a, b)
+    return float_max(a, b)
+
+
+@model(r"^<(T|F|f32|f64) as (num_traits::)?Float>::is_nan$|^(f32|f64)::is_nan$|^std::(f32|f64)::<impl (f32|f64)>::is_nan$", "is_nan: the NaN flag (false in R-mode)")
+def m_is_nan(eng, callee, args):
+    return Num.of(deref(args[0])).is_nan()
 
 
 @model(r"^<(T|F) as (num_traits::)?Float>::epsilon$", "Float::epsilon = a small positive symbol")
